@@ -49,7 +49,8 @@ type mBinding struct {
 	name    string
 	kube    bool
 	crontab string
-	queueNo int // 0 = no `queue` key, k = "q<k>"
+	queueNo int // 0 = no `queue` key, k = the k-th queue name of the case
+	qname   string // the `queue` value as written ("" = no key)
 	pair    int // 1.. over all (hook, binding) pairs of the case
 	monitor string
 	arrived int
@@ -63,11 +64,11 @@ type mHook struct {
 	bindings []*mBinding
 }
 
-func specQueueName(no int) string {
-	if no == 0 {
+func (b *mBinding) specQueueName() string {
+	if b.queueNo == 0 {
 		return "-"
 	}
-	return fmt.Sprintf("q%d", no)
+	return b.qname
 }
 
 func (h *mHook) configText() string {
@@ -88,7 +89,7 @@ func (h *mHook) configText() string {
 		for _, x := range sch {
 			fmt.Fprintf(&b, "- name: %s\n  crontab: \"%s\"\n", x.name, x.crontab)
 			if x.queueNo > 0 {
-				fmt.Fprintf(&b, "  queue: q%d\n", x.queueNo)
+				fmt.Fprintf(&b, "  queue: %q\n", x.qname)
 			}
 		}
 	}
@@ -103,7 +104,7 @@ func (h *mHook) configText() string {
 			for _, x := range kub {
 				fmt.Fprintf(&b, "- name: %s\n  kind: ConfigMap\n  executeHookOnEvent: [\"Added\"]\n  executeHookOnSynchronization: false\n", x.name)
 				if x.queueNo > 0 {
-					fmt.Fprintf(&b, "  queue: q%d\n", x.queueNo)
+					fmt.Fprintf(&b, "  queue: %q\n", x.qname)
 				}
 			}
 		}
@@ -201,6 +202,15 @@ func c03OperatorMulti(r *Run, c *Case, rng *Rng) {
 	// ---- generate the hooks
 	nq := rng.Range(1, 3)
 	nh := rng.Range(2, 4)
+	// the names of the case's queues: q1 (where h1 hangs), and for the 2nd and 3rd either plain names or
+	// names that look like the default / like another queue (each is a queue of its own)
+	qn := []string{"", "q1", "q2", "q3"}
+	if rng.Chance(40) {
+		qn[2] = PickOne(rng, []string{"Main", "MAIN", "main1", "Q1", "mai"})
+	}
+	if rng.Chance(40) {
+		qn[3] = PickOne(rng, []string{"mAin", "main-2", "q11", "q", "xmain"})
+	}
 	crontabs := []string{"1 1 1 1 *", "2 2 2 2 *", "3 3 3 3 *"}
 	var hooks []*mHook
 	var pairs []*mBinding
@@ -242,6 +252,7 @@ func c03OperatorMulti(r *Run, c *Case, rng *Rng) {
 		for _, b := range h.bindings {
 			pairs = append(pairs, b)
 			b.pair = len(pairs)
+			b.qname = qn[b.queueNo]
 		}
 		hooks = append(hooks, h)
 		if err := writeMultiHook(dir, h, i > 1 && rng.Chance(25)); err != nil {
@@ -261,7 +272,7 @@ func c03OperatorMulti(r *Run, c *Case, rng *Rng) {
 		if b.kube {
 			k = "ConfigMap"
 		}
-		cfgDesc = append(cfgDesc, fmt.Sprintf("%s(%s).%s[%s]:%s", b.hook.name, v, b.name, strings.ReplaceAll(k, " ", "_"), specQueueName(b.queueNo)))
+		cfgDesc = append(cfgDesc, fmt.Sprintf("%s(%s).%s[%s]:%s", b.hook.name, v, b.name, strings.ReplaceAll(k, " ", "_"), b.specQueueName()))
 	}
 	c.Desc = "hooks " + strings.Join(cfgDesc, " ")
 
@@ -392,7 +403,7 @@ func c03OperatorMulti(r *Run, c *Case, rng *Rng) {
 	wantQ := map[string]bool{"main": true}
 	for _, b := range pairs {
 		if b.queueNo > 0 {
-			wantQ[fmt.Sprintf("q%d", b.queueNo)] = true
+			wantQ[b.qname] = true
 		}
 	}
 	var want, got []string
@@ -564,7 +575,7 @@ func c03OperatorMulti(r *Run, c *Case, rng *Rng) {
 	// ---- the trace for the oracles
 	qNum := map[string]int{"main": 1}
 	for k := 1; k <= 3; k++ {
-		qNum[fmt.Sprintf("q%d", k)] = k + 1
+		qNum[qn[k]] = k + 1
 	}
 	numOf := func(name string) int {
 		if n, ok := qNum[name]; ok {
@@ -636,7 +647,7 @@ func c03OperatorMulti(r *Run, c *Case, rng *Rng) {
 				if emitFanout && (len(exp) > 0 || len(x.tasks) > 0) {
 					var cfg, gotT []string
 					for _, b := range exp {
-						cfg = append(cfg, fmt.Sprintf("%s.%s:%s", b.hook.name, b.name, specQueueName(b.queueNo)))
+						cfg = append(cfg, fmt.Sprintf("%s.%s:%s", b.hook.name, b.name, b.specQueueName()))
 					}
 					for _, t := range x.tasks {
 						gotT = append(gotT, fmt.Sprintf("%s.%s=%s", strings.TrimSuffix(t.hook, ".sh"), t.binding, showQueueName(t.queue)))
@@ -751,16 +762,28 @@ func c03OperatorMulti(r *Run, c *Case, rng *Rng) {
 func c03LoaderGen(c *Case, rng *Rng) {
 	v0 := rng.Chance(40)
 	type bnd struct {
-		name, queue string
-		kube        bool
+		name, key, queue string // name as written ("" = no `name` key); key = what the oracle calls it
+		kube             bool
+		minute           int
 	}
 	var bs []bnd
-	queues := []string{"", "", "slow", "pods", "main", "q-1"}
-	for j := rng.Range(0, 3); j > 0; j-- {
-		bs = append(bs, bnd{name: fmt.Sprintf("s%d", len(bs)), queue: PickOne(rng, queues)})
+	// how the bindings are named: 0 = every binding its own name, 1 = none has a name (the loader calls
+	// them all `schedule` / `kubernetes`), 2 = names from a pool of two (collisions)
+	naming := rng.Intn(3)
+	nameOf := func(prefix string, i int) string {
+		switch naming {
+		case 1:
+			return ""
+		case 2:
+			return fmt.Sprintf("%s%d", prefix, rng.Intn(2))
+		}
+		return fmt.Sprintf("%s%d", prefix, i)
 	}
 	for j := rng.Range(0, 3); j > 0; j-- {
-		bs = append(bs, bnd{name: fmt.Sprintf("k%d", len(bs)), queue: PickOne(rng, queues), kube: true})
+		bs = append(bs, bnd{name: nameOf("s", len(bs)), queue: c03QueueSetting(rng), minute: len(bs)})
+	}
+	for j := rng.Range(0, 3); j > 0; j-- {
+		bs = append(bs, bnd{name: nameOf("k", len(bs)), queue: c03QueueSetting(rng), kube: true})
 	}
 	if len(bs) == 0 {
 		bs = append(bs, bnd{name: "k0", kube: true})
@@ -787,24 +810,40 @@ func c03LoaderGen(c *Case, rng *Rng) {
 				}
 			}
 			if pass == 0 {
-				fmt.Fprintf(&b, "- name: %s\n  crontab: \"%d * * * *\"\n", x.name, rng.Intn(60))
+				fmt.Fprintf(&b, "- crontab: \"%d * * * *\"\n", x.minute)
 			} else if v0 {
-				fmt.Fprintf(&b, "- name: %s\n  kind: Pod\n  event: [add]\n", x.name)
+				b.WriteString("- kind: Pod\n  event: [add]\n")
 			} else {
-				fmt.Fprintf(&b, "- name: %s\n  kind: Pod\n", x.name)
+				b.WriteString("- kind: Pod\n")
+			}
+			if x.name != "" {
+				fmt.Fprintf(&b, "  name: %s\n", x.name)
 			}
 			if !v0 && x.queue != "" {
-				fmt.Fprintf(&b, "  queue: %s\n", x.queue)
+				fmt.Fprintf(&b, "  queue: %q\n", x.queue)
 			}
 		}
 	}
+	// a binding is identified by its name and (schedule bindings, whose names may collide) its crontab
 	var cfgL []string
 	for _, x := range bs {
-		q := x.queue
-		if q == "" || v0 {
+		q := showQueueName(x.queue)
+		if x.queue == "" || v0 {
 			q = "-"
 		}
-		cfgL = append(cfgL, x.name+":"+q)
+		n := x.name
+		switch {
+		case n == "" && x.kube && v0:
+			n = "onKubernetesEvent"
+		case n == "" && x.kube:
+			n = "kubernetes"
+		case n == "":
+			n = "schedule"
+		}
+		if !x.kube {
+			n += fmt.Sprintf("@%d", x.minute)
+		}
+		cfgL = append(cfgL, n+":"+q)
 	}
 	sort.Strings(cfgL)
 	ver := "v1"
@@ -820,7 +859,7 @@ func c03LoaderGen(c *Case, rng *Rng) {
 	}
 	var got []string
 	for _, s := range cfg.Schedules {
-		got = append(got, s.BindingName+"="+showQueueName(s.Queue))
+		got = append(got, s.BindingName+"@"+strings.Fields(s.ScheduleEntry.Crontab+" ?")[0]+"="+showQueueName(s.Queue))
 	}
 	for _, k := range cfg.OnKubernetesEvents {
 		got = append(got, k.BindingName+"="+showQueueName(k.Queue))
@@ -830,24 +869,52 @@ func c03LoaderGen(c *Case, rng *Rng) {
 	c.Oracle("queuenames cfg=" + joinStrs(cfgL) + " got=" + joinStrs(got))
 	c.Nontrivial = true
 	c.Note("kind:loader-" + ver)
+	c.Note(fmt.Sprintf("loader:naming-%d", naming))
+	for _, x := range bs {
+		if !v0 && x.queue != "" && x.queue != "main" && strings.EqualFold(strings.TrimSpace(x.queue), "main") {
+			c.Note("loader:queue-looks-like-main")
+			break
+		}
+	}
+}
+
+// c03QueueSetting: the value of a `queue` key: absent, ordinary names, `main` itself, and names that look
+// like the default or like each other (other letter case, prefixes, suffixes) — each is a queue of its own.
+func c03QueueSetting(rng *Rng) string {
+	if rng.Chance(25) {
+		return ""
+	}
+	return PickOne(rng, []string{"slow", "pods", "main", "q-1", "Main", "MAIN", "mAin", "main1", "main-2",
+		"xmain", "mai", "mainmain", "Q-1", "Slow", "pods2", "pod", "main.", "default", "m"})
 }
 
 // c03Controller: a generated configuration (v0 or v1, 1-5 schedule bindings with crontabs from a pool of
 // three, so several bindings share one; `queue` absent or named) through the real loader into a real
 // HookController with a real (not started) schedule manager; EnableScheduleBindings, then one
 // HandleScheduleEvent per crontab. Compared with Model/Routing (op schedfan) and judged by the oracle
-// fanout: one info per binding with that crontab, for the queue it names.
+// fanout: one info per binding with that crontab, for the queue it names. Plus 0-3 kubernetes bindings
+// through the real kubernetes bindings controller (fake events manager): one event per monitor, the info
+// must carry the queue of the binding that owns the monitor. Binding names: all different / none named /
+// from a pool of two; queue names include look-alikes of `main` and of each other.
 func c03Controller(c *Case, rng *Rng) {
 	v0 := rng.Chance(30)
 	pool := []string{"1 1 1 1 *", "*/5 * * * *", "3 3 3 3 *"}
-	queues := []string{"", "", "qa", "qb", "main"}
+	queues := []string{"", "", "qa", "qb", "main", "Main", "qA", "qa1"}
 	type bnd struct {
-		name, queue string
+		name, queue string // name "" = no `name` key: the loader calls every such binding `schedule`
 		ct          int
 	}
 	var bs []bnd
+	// names: 0 = all different, 1 = no binding has a name, 2 = names from a pool of two (collisions)
+	naming := rng.Intn(3)
 	for j := rng.Range(1, 5); j > 0; j-- {
 		b := bnd{name: fmt.Sprintf("s%d", len(bs)+1), ct: rng.Intn(len(pool))}
+		switch naming {
+		case 1:
+			b.name = ""
+		case 2:
+			b.name = fmt.Sprintf("s%d", rng.Range(1, 2))
+		}
 		if !v0 {
 			b.queue = PickOne(rng, queues)
 		}
@@ -859,9 +926,46 @@ func c03Controller(c *Case, rng *Rng) {
 	}
 	y.WriteString("schedule:\n")
 	for _, b := range bs {
-		fmt.Fprintf(&y, "- name: %s\n  crontab: \"%s\"\n", b.name, pool[b.ct])
+		fmt.Fprintf(&y, "- crontab: \"%s\"\n", pool[b.ct])
+		if b.name != "" {
+			fmt.Fprintf(&y, "  name: %s\n", b.name)
+		}
 		if b.queue != "" {
 			fmt.Fprintf(&y, "  queue: %s\n", b.queue)
+		}
+	}
+	// 0-3 kubernetes bindings, named by the same regime
+	var kbs []bnd
+	for j := rng.Range(0, 3); j > 0; j-- {
+		b := bnd{name: fmt.Sprintf("k%d", len(kbs)+1)}
+		switch naming {
+		case 1:
+			b.name = ""
+		case 2:
+			b.name = fmt.Sprintf("k%d", rng.Range(1, 2))
+		}
+		if !v0 {
+			b.queue = PickOne(rng, queues)
+		}
+		kbs = append(kbs, b)
+	}
+	if len(kbs) > 0 {
+		if v0 {
+			y.WriteString("onKubernetesEvent:\n")
+		} else {
+			y.WriteString("kubernetes:\n")
+		}
+		for _, b := range kbs {
+			y.WriteString("- kind: Pod\n")
+			if v0 {
+				y.WriteString("  event: [add]\n")
+			}
+			if b.name != "" {
+				fmt.Fprintf(&y, "  name: %s\n", b.name)
+			}
+			if b.queue != "" {
+				fmt.Fprintf(&y, "  queue: %s\n", b.queue)
+			}
 		}
 	}
 	ver := "v1"
@@ -912,12 +1016,48 @@ func c03Controller(c *Case, rng *Rng) {
 				if q == "" {
 					q = "-"
 				}
-				cfgL = append(cfgL, b.name+":"+q)
+				n := b.name
+				if n == "" {
+					n = "schedule"
+				}
+				cfgL = append(cfgL, n+":"+q)
 			}
 		}
 		sort.Strings(cfgL)
 		c.Oracle(fmt.Sprintf("fanout kind=schedule cfg=%s got=%s", joinStrs(cfgL), joinStrs(got)))
 	}
-	c.Nontrivial = len(bs) >= 2
+	// the kubernetes bindings: the real controller's links (monitor id -> binding), one event per monitor
+	if len(kbs) > 0 && len(cfg.OnKubernetesEvents) == len(kbs) {
+		hc.InitKubernetesBindings(cfg.OnKubernetesEvents, &fakeKem{ch: make(chan kemtypes.KubeEvent, 1)}, log.NewNop())
+		if err := hc.HandleEnableKubernetesBindings(func(controller.BindingExecutionInfo) {}); err != nil {
+			c.Oracle("opflag what=kubernetes-bindings-enabled ok=false")
+			return
+		}
+		for i, kc := range cfg.OnKubernetesEvents {
+			obj := &unstructured.Unstructured{Object: map[string]interface{}{"apiVersion": "v1", "kind": "Pod",
+				"metadata": map[string]interface{}{"name": fmt.Sprintf("p%d", i), "namespace": "default"}}}
+			ev := kemtypes.KubeEvent{MonitorId: kc.Monitor.Metadata.MonitorId, Type: kemtypes.TypeEvent,
+				WatchEvents: []kemtypes.WatchEventType{kemtypes.WatchEventAdded},
+				Objects:     []kemtypes.ObjectAndFilterResult{{Object: obj}}}
+			var got []string
+			hc.HandleKubeEvent(ev, func(info controller.BindingExecutionInfo) {
+				got = append(got, info.Binding+"="+showQueueName(info.QueueName))
+			})
+			q, n := kbs[i].queue, kbs[i].name
+			if q == "" {
+				q = "-"
+			}
+			if n == "" {
+				n = "kubernetes"
+				if v0 {
+					n = "onKubernetesEvent"
+				}
+			}
+			c.Oracle(fmt.Sprintf("fanout kind=kubernetes cfg=%s:%s got=%s", n, q, joinStrs(got)))
+		}
+		c.Note("controller:has-kubernetes-bindings")
+	}
+	c.Nontrivial = len(bs)+len(kbs) >= 2
 	c.Note("kind:controller-" + ver)
+	c.Note(fmt.Sprintf("controller:naming-%d", naming))
 }
